@@ -435,6 +435,14 @@ fn bases(thorough: bool) -> Vec<(String, Program)> {
         }
         v.push((fam, without_externals(&p)));
     }
+    {
+        // counts, magnitudes and lengths beyond the other families
+        let mut scale = Vec::new();
+        crate::stmtfam::scale_programs(thorough, &mut scale);
+        for (fam, p) in scale {
+            v.push((fam, without_externals(&p)));
+        }
+    }
     let space = crate::engines::c01::expr_space(1);
     for (t, size, xs) in &space {
         for (i, e) in xs.iter().enumerate() {
@@ -668,19 +676,25 @@ pub fn run(run: &mut Run) {
         let nn = count_nodes(base);
         let (ns, nb) = count_stmts(base);
         let mut perts = Vec::new();
-        for k in 0..nn {
+        // the large programs of the scale family: the first and last few nodes, every (nn / 8)-th in between, and
+        // the first and last two names - an ill-typed item far down a long program is what they are there for
+        let sparse = fam.starts_with("scale:") && nn > 120;
+        let keep_node = |k: usize| !sparse || k < 6 || k + 8 >= nn || k % (nn / 8).max(1) == 0;
+        let keep_name = |ni: usize| !sparse || ni < 2 || ni + 2 >= names.len();
+        let keep_stmt = |k: usize| !sparse || k < 4 || k + 4 >= ns || k % (ns / 8).max(1) == 0;
+        for k in (0..nn).filter(|k| keep_node(*k)) {
             for li in 0..literals().len() {
                 perts.push(Pert::ReplaceWithLiteral(k, li));
             }
-            for ni in 0..names.len() {
+            for ni in (0..names.len()).filter(|ni| keep_name(*ni)) {
                 perts.push(Pert::ReplaceWithName(k, ni));
             }
         }
-        for k in 0..nn {
+        for k in (0..nn).filter(|k| keep_node(*k)) {
             perts.push(Pert::SwapArgs(k));
             perts.push(Pert::WidenTupleOrList(k));
         }
-        for k in 0..ns {
+        for k in (0..ns).filter(|k| keep_stmt(*k)) {
             perts.push(Pert::DropStmt(k));
         }
         for k in 0..nb {
